@@ -153,6 +153,10 @@ class IOBase(Communicator):
         self._conn.disconnect()
         self._conn = None
         self.is_connected = False
+        if not self._last_error:
+            # make sure the reconnect callbacks are called on the next successful connect,
+            # also when the connection was lost without an error being logged before
+            self._last_error = 'disconnected'
 
     def doPoll(self):
         self.read_is_connected()
